@@ -3,6 +3,7 @@
 package scen
 
 import (
+	"context"
 	"crypto/sha256"
 	"errors"
 	"fmt"
@@ -96,7 +97,7 @@ type c20Op struct {
 	n        int
 	epoch    int
 	client   int
-	kind     string // put get count contains delete empty size reset
+	kind     string // put get count contains delete empty size reset close overlap (a ResetCids call while a reset runs)
 	keys     []int  // put/delete: pool indices in call order (may repeat one)
 	mask     uint64 // put/delete: set of keys; reset: the supplied set N
 	prefix   string
@@ -121,6 +122,8 @@ type c20Op struct {
 	begin bool
 	// reset only: the key channel was closed after all keys had been taken
 	fedAll bool
+	// overlapping ResetCids call only: cancels its context
+	cancel context.CancelFunc
 }
 
 func (o *c20Op) closedErr() bool { return o.err != nil && errors.Is(o.err, keystore.ErrClosed) }
